@@ -12,7 +12,7 @@ from ..lifecycle import TAB
 
 LEVEL = 'other'
 EXPLANATION = (
-    'Static analysis (typestate of the tableau flag word). The verdict properties and the step-limit predicate are folded from source over every flag combination; every write to Tableau.flag in the package is enumerated with its dominating conditions and compared with the reviewed who-may-write table (a new writer, a missing guard or a clear of a bit other than PREMATURE is a finding); step()/finish() idempotence guards, the dominance of the step-limit test over rule application, the order set-TIMED_OUT -> finish() -> raise, the started-guards of the setters and of build_trunk, and the @locking discipline of the rule collections are checked structurally. (R6) StopWatch folded as a state machine: elapsed_ms() is the sum of all intervals since the last reset.')
+    'Static analysis (typestate of the tableau flag word). The verdict properties and the step-limit predicate are folded from source over every flag combination; every write to Tableau.flag in the package is enumerated with its dominating conditions and compared with the reviewed who-may-write table (a new writer, a missing guard or a clear of a bit other than PREMATURE is a finding); step()/finish() idempotence guards, the dominance of the step-limit test over rule application, the order set-TIMED_OUT -> finish() -> raise, the started-guards of the setters and of build_trunk, and the @locking discipline of the rule collections are checked structurally. (R6) StopWatch folded as a state machine: elapsed_ms() is the sum of all intervals since the last reset. R5 is folded: the argument/logic setters and build_trunk over all started/built/missing states, and the rule collections as a state machine with the locking decorator applied. R4 builds Emsg.Timeout as the code does (the member\'s value tuple from the Emsg class body given to the folded EmsgBase) and drives _check_timeout with integral and fractional limits: beyond the limit the object raised is a ProofTimeoutError.')
 TRUSTED = ['CPython ast', 'sa.minieval', 'sa.astq.guards_of (dominating-condition computation over if/early-exit idioms)']
 ASSUMPTIONS = ['wall-clock behaviour is declined', 'events are delivered synchronously by EventEmitter (not analysed)']
 
